@@ -107,6 +107,88 @@ theorem runText_records (F : Facts) (defsText queryText : List Char) (fmt : Prin
   rw [runText_eq_runLowered F defsText queryText fmt single files defs query hc hd hp hq]
   exact runLowered_records F defs query fmt single files tables stmt fromTable join t ht hs hff hr hreal
 
+/-! ### 1′. the same for EVERY query, over total oracle functions (third review, M6)
+
+`queryFactFree` is a syntactic sub-class; the skip it excludes is an artefact of the finite evaluator tables the driver
+works with. With total functions behind those tables (`F.eval.Total`: `upperF`, `lowerF`, `regexF`, `nowF` —
+`Model/Eval.lean` `TotalOracles`) the engine part of the end-to-end run is never skipped, whatever the statement calls. -/
+
+/-- the engine part of the end-to-end run is never skipped under a total evaluator oracle — every statement -/
+theorem runStatement_not_skipped_total (F : Facts) (hT : F.eval.Total) (tables : List Table) (stmt : Stmt)
+    (fromTable : String) (join : Option LJoin) (files : List (List Nat)) (t : TraceOut)
+    (h : runStatement F tables stmt fromTable join files = some t) : t.out.skipped = none :=
+  Pipeline.runStatement_not_skipped F anyFunc (fun f _ => NM_callFunction_total F.eval hT f) tables stmt fromTable join
+    files t (Stmt.allFuncs_any stmt) h
+
+/-- **totality of the lowered run, for every query, over total oracle functions**: the answer is printed records (with
+`Ok` or a reported error kind), "not a CREATE TABLE", "not a query", or one of the two skips that concern facts about
+the INPUT (what `regex` says about an input line / the text of a printed REAL was not shipped) — never `panic`, never a
+skip for an evaluator fact, whether or not the query calls `upper`, `lower`, `regexp_matches`, `now` -/
+theorem runLowered_total_of_total_oracles (F : Facts) (hT : F.eval.Total) (defs query : LStmt) (fmt : Print.Format)
+    (single : Bool) (files : List (List Nat)) :
+    (∃ e n ls, runLowered F defs query fmt single files = .records e n ls) ∨
+    runLowered F defs query fmt single files = .notCreateTable ∨
+    runLowered F defs query fmt single files = .notAQuery ∨
+    runLowered F defs query fmt single files = .skip "line facts" ∨
+    runLowered F defs query fmt single files = .skip "REAL rendering" := by
+  cases ht : addTables defs with
+  | none => right; left; unfold runLowered; rw [ht]
+  | some tables =>
+    cases hs : stmtOf query with
+    | none => right; right; left; unfold runLowered; rw [ht]; simp only; rw [hs]
+    | some p =>
+      obtain ⟨stmt, fromTable, join⟩ := p
+      cases hr : runStatement F tables stmt fromTable join files with
+      | none => right; right; right; left; unfold runLowered; rw [ht]; simp only; rw [hs]; simp only; rw [hr]
+      | some t =>
+        rw [runLowered_eq F defs query fmt single files tables stmt fromTable join t ht hs hr,
+          answerOf_of_not_skipped F fmt single t (runStatement_no_panic F tables stmt fromTable join files t hr)
+            (runStatement_aligned F tables stmt fromTable join files t hr)
+            (runStatement_not_skipped_total F hT tables stmt fromTable join files t hr)]
+        cases realsCover F t.calls with
+        | true => left; exact ⟨_, _, _, rfl⟩
+        | false => right; right; right; right; rfl
+
+/-- **results or an error message, every query**: over defined tables, with the facts about the input lines present and
+the rendering of every printed REAL present, the run under a total evaluator oracle ends in `.records`: the printed
+lines, the line count, and `t.out.error` — `none` for `Ok`, `some kind` for a reported error -/
+theorem runLowered_records_total (F : Facts) (hT : F.eval.Total) (defs query : LStmt) (fmt : Print.Format) (single : Bool)
+    (files : List (List Nat)) (tables : List Table) (stmt : Stmt) (fromTable : String) (join : Option LJoin) (t : TraceOut)
+    (ht : addTables defs = some tables) (hs : stmtOf query = some (stmt, fromTable, join))
+    (hr : runStatement F tables stmt fromTable join files = some t) (hc : realsCover F t.calls = true) :
+    runLowered F defs query fmt single files =
+      .records t.out.error t.out.totalLines
+        ((Print.printAll (realOracle F) fmt true (printCalls single t.calls)).map Print.Line.bytes) := by
+  rw [runLowered_eq F defs query fmt single files tables stmt fromTable join t ht hs hr]
+  exact answerOf_records F fmt single t (runStatement_no_panic F tables stmt fromTable join files t hr)
+    (runStatement_aligned F tables stmt fromTable join files t hr)
+    (runStatement_not_skipped_total F hT tables stmt fromTable join files t hr) hc
+
+/-- **an aggregate statement that a TEXT lowers to has at least one select-list item** — `result_rows_by_column[0]`
+(aggregate_execution.rs:276) is in range for every accepted statement (`Props/C09.aggregate_statement_has_items`, from
+the first stage of `runText`) -/
+theorem parseText_aggregate_has_items (lo : Lex.Oracles) (rv : List Char → Bool) (text : List Char) (a : AggStmt)
+    (t : String) (f : Option String) (j : Option LJoin) (h : parseText lo rv text = .stmt (.aggregate a t f j)) :
+    a.items ≠ [] := by
+  unfold parseText at h
+  split at h
+  · rename_i ts _
+    unfold parseToks at h
+    split at h
+    · rename_i op hp
+      unfold lowerTree at h
+      split at h
+      · rename_i st hl
+        cases h
+        exact Props.C09.aggregate_statement_has_items PrecTables.code _ ts op rv a t f j hp hl
+      · cases h
+      · cases h
+    · cases h
+    · cases h
+    · cases h
+  · cases h
+  · cases h
+
 /-! ### 2. every `row[index]` site of the engines is in range on the rows the end-to-end model hands to the engine -/
 
 /-- **engine rows and indices are in range.** Let the definitions text lower to `defs` (so the tables are what
@@ -234,6 +316,19 @@ example : exEngineInput exFacts exDefs exQuery [exFile] =
 example : (match runText exFacts exDefs "SELECT now() FROM t".toList .text false [exFile] with
     | .skip w => some w
     | _ => none) = some "now" := by decide +kernel
+
+/-- … but under a total evaluator oracle (`runLowered_total_of_total_oracles`) the same text ends with records: four
+lines consumed, one record per admitted row -/
+def exFactsTotal : Facts := { exFacts with eval := Props.C09.exTotal.oracles }
+example : exFactsTotal.eval.Total := ⟨Props.C09.exTotal, rfl⟩
+example : (match runText exFactsTotal exDefs "SELECT now() FROM t".toList .text false [exFile] with
+    | .records e n ls => some (e, n, ls.length)
+    | _ => none) = some (none, 4, 3) := by decide +kernel
+
+/-- `parseText_aggregate_has_items` is not vacuous: an aggregate text lowers to an aggregate statement (two items) -/
+example : (match parseText (lexOracles exFacts) (regexValidFn exFacts) "SELECT b, COUNT(*) FROM t GROUP BY b".toList with
+    | .stmt (.aggregate a _ _ _) => some a.items.length
+    | _ => none) = some 2 := by decide +kernel
 
 /-! … and with a JOIN: two CREATE TABLE statements in the definitions text, the joined file `j.log` -/
 
